@@ -20,19 +20,22 @@ CLAIMED = {
 }
 
 CLAIMED["C08"] = dict(
-    text="Lean 4 theorems (kernel-checked; any number of threads, every operation program, every interleaving of the atomic accesses): "
-         "spin_rw_mutex — at most one writer, never writer with reader, reader field = number of reader-unit owners, no bit-field "
-         "corruption, try_lock truthful and wait-free, upgrade returns true only from the in-place path during which the thread never "
-         "released and no writer can exist, downgrade is one atomic access, no lost grant (free word at quiescence; pending hint only "
-         "while some thread is inside lock()); spin_mutex — holders = flag. Tie: the real headers run under the E-SHIM controlled "
-         "scheduler and every access to the lock word (kind, value read/expected, value written, CAS outcome, operation results) is "
-         "replayed on the model; ghost-holder monitors + bounded-preemption DFS search for failing schedules.",
-    note="Trusted: Lean kernel; standard axioms; harness/shim (atomic shim + baton scheduler); sampled access-level correspondence. "
-         "Sequentially consistent interleavings only (release/acquire visibility not modelled). queuing_mutex, mutex, rw_mutex, "
-         "queuing_rw_mutex, RTM variants: being added (C08 part 2).",
-    technique="Lean 4 proof (N-thread inductive invariant over an atomic-access-level protocol model) + E-SHIM trace replay",
+    text="Lean 4 theorems (any number of threads, every operation program, every interleaving of the atomic accesses): spin_rw_mutex and "
+         "rw_mutex — at most one writer, never writer with reader, reader field = number of reader-unit owners, no bit-field corruption, "
+         "try-acquire truthful and wait-free, upgrade returns true only from the in-place path during which no writer can exist, downgrade "
+         "is one atomic access, no lost grant; spin_mutex and tbb::mutex — holders = flag, truthful try, sleeping hand-off loses no wake-up "
+         "(rw_wake_rules, mutex_handoff_no_loss); queuing_mutex (MCS) — exclusion, FIFO (grant order = q_tail exchange order), no lost "
+         "hand-off incl. the late successor link, truthful try; queuing_rw_mutex — safety, queue order, truthful upgrade, atomic downgrade on "
+         "a specification machine; rw_orders_publish — every unlock is a release or RMW and every lock an acquire or RMW on the same word, "
+         "over the memory-order table regenerated from the E-SHIM traces. Tie: all eight lock kinds run under the E-SHIM controlled scheduler "
+         "(sleeping variants and queuing_rw_mutex on the instrumented runtime); lock-word / queue-node / hand-shake accesses replay on the "
+         "models, queuing_rw_mutex's holder event log is validated against its spec; ghost-holder, FIFO and deadlock monitors; random + "
+         "bounded-preemption DFS schedules.",
+    note="Trusted: Lean kernel; standard axioms; harness/shim; harness/c08; sampled access-level correspondence. Sequentially consistent "
+         "interleavings only (store-buffer delays are covered by the memory-order obligation, not explored). PARTIAL: queuing_rw_mutex's "
+         "internal node protocol is not modelled (spec-level validation + exploration); RTM variants run only their fall-back path here.",
+    technique="Lean 4 proof (N-thread inductive invariants over atomic-access-level protocol models; spec machine for queuing_rw_mutex) + E-SHIM trace replay",
     design="§3 C08, §2.6")
-
 CLAIMED["C06"] = dict(
     text="Lean 4 theorems for every schedule/steal oracle: parallel_reduce's body value is the range in order (free monoid), each element "
          "once, a body is joined only into the body it was split from after both finished; deterministic_reduce's split/join term is a "
